@@ -153,7 +153,31 @@ def latpar_oracle(sg, isSpaceGroupLatPar):
         if shape_sys in LOWER.get(sg.crystal_system, []):
             if isSpaceGroupLatPar(sg, *c):
                 out.append({"what": "accepts a cell of the lower system %s" % shape_sys, "cell": c})
+    # every cell the operations leave invariant must be accepted, also the more symmetric ones
+    # (a monoclinic setting with an orthorhombic or cubic metric, a tetragonal one with a cubic metric, ...)
+    rots = {R for R, t in exact_ops(sg)}
+    for shape_sys, c in SHAPES + EXTRA_SHAPES:
+        G = metric_of_cell(c)
+        if all(max(abs(sum(R[k][i] * G[k][l] * R[l][j] for k in range(3) for l in range(3)) - G[i][j])
+                   for i in range(3) for j in range(3)) < 1e-9 for R in rots):
+            if not isSpaceGroupLatPar(sg, *c):
+                out.append({"what": "rejects the %s-shaped cell that its operations leave invariant" % shape_sys.lower(), "cell": c})
     return out
+
+
+EXTRA_SHAPES = [("TETRAGONAL", (5.1, 7.3, 5.1, 90.0, 90.0, 90.0)), ("TETRAGONAL", (7.3, 5.1, 5.1, 90.0, 90.0, 90.0)),
+                ("HEXAGONAL", (5.1, 5.1, 5.1, 90.0, 90.0, 120.0)), ("TRIGONAL", (5.1, 5.1, 5.1, 60.0, 60.0, 60.0))]
+
+
+def metric_of_cell(c):
+    import math
+
+    a, b, cc, al, be, ga = c
+
+    def cs(x):
+        return {90.0: 0.0, 120.0: -0.5, 60.0: 0.5}.get(x, math.cos(math.radians(x)))
+
+    return [[a * a, a * b * cs(ga), a * cc * cs(be)], [a * b * cs(ga), b * b, b * cc * cs(al)], [a * cc * cs(be), b * cc * cs(al), cc * cc]]
 
 
 # ---- the check --------------------------------------------------------------------------
@@ -232,7 +256,7 @@ def run(ck):
             fails = latpar_oracle(sg, isSpaceGroupLatPar)
         except Exception as e:  # an exception is a failure of the clause as well
             fails = [{"what": "isSpaceGroupLatPar raised %r" % e, "cell": None}]
-        nlat += 1 + len(SHAPES)
+        nlat += 1 + 2 * len(SHAPES) + len(EXTRA_SHAPES)
         for f in fails:
             LATSEEN.add("latpar:%s" % sg.number)
             ck.fail("latpar:%s" % sg.number, "isSpaceGroupLatPar(%s #%s) %s: %r" % (sg.short_name, sg.number, f["what"], f["cell"]),
